@@ -48,6 +48,11 @@ INNER_PLAIN = ["ls", "ls -la", "cat f", "echo hi", "git status", "okcmd a", "rm 
                "sh -c 'echo hi > $(rm x)'", "sh -c 'cat < <(zap)'", "bash -c 'ls > /tmp/$(zap)'", "sh -c 'echo $(rm x)'", "sh -c 'cat <<EOF\n$(zap)\nEOF'",
                "env sh -c 'echo hi >> $(frobnicate a)'", "sh -c 'ls 2> `rm x`'", "sh -c 'echo ${v:-$(zap)}'", "sh -c '{ ls; } > $(rm x)'",
                "timeout 5 sh -c 'ls > >(zap)'", "sh -c 'sh -c \"echo > \\$(rm x)\"'", "sh -c 'ls; cd /; rm x'", "sh -c 'if ls; then zap; fi'"]
+# user rules whose pattern contains a path-shaped or slash-containing word of every kind: the delegated command is
+# still matched against them (textually - the words are container paths), exactly as it would be locally
+SLASH_WORDS = ["s/enforcing/disabled/", "example.com/install.sh", "./x", "a/b", "/etc/shadow", "~/k", "../y", "x/", "//z", "http://h/p", "a/../b",
+               "/", ".", "..", "~", "*/c", "d/*.txt"]
+SLASH_RULES = "".join(f'deny frob{i} {w} "M{i}"\nask quux{i} -v {w}\n' for i, w in enumerate(SLASH_WORDS))
 INNER_PATHY = [("rm /etc/passwd", "rm x"), ("cat /etc/passwd", "cat f"), ("ls /jail/secret", "ls")]
 OUTER = [  # (template with {E} = the exec command, text of the outer part judged alone)
     ("{E} > nogrant", "echo > nogrant"), ("{E} > /jail/out/f", "echo > /jail/out/f"), ("{E} 2> /jail/secret/s", "echo 2> /jail/secret/s"),
@@ -112,6 +117,42 @@ def run(tier, seed, replay=None):
             out.violations.append({"kind": "undelegated-approved", "what": f"{text!r} is approved although Dippy does not analyse its inner command",
                                    "program": text, "config": CFG, "signature_text": text})
         correspond(text)
+    # (a') rules with path-shaped words still decide inside the container
+    cfg_slash = parse_config(CFG + SLASH_RULES)
+    for e, (i, w) in itertools.product(execs, list(enumerate(SLASH_WORDS))):
+        for inner in (f"frob{i} {w}", f"frob{i} {w} extra", f"quux{i} -v {w}", f"timeout 5 frob{i} {w}", f"sh -c 'frob{i} {w}'"):
+            text = f"{e} {inner}"
+            v_exec = an.analyze(text, cfg_slash, Path(cwd)).action
+            v_in = an.analyze(inner, cfg_slash, Path(cwd)).action
+            out.case(["slash-rule", text])
+            out.count("shape", "rule-with-path-word")
+            if v_exec != v_in:
+                out.violations.append({"kind": "inner-differs", "what": f"{text!r} is judged {v_exec} but the inner command alone {v_in} (a rule with the word {w!r} decides it)",
+                                       "program": text, "inner": inner, "config": CFG + SLASH_RULES, "signature_text": text})
+            mv = model_analyze(model, cfg_slash, text, cwd)
+            if mv != v_exec:
+                out.disagreements.append({"correspondence": "Walker.analyze_nodes <-> analyzer.analyze", "program": text, "model": mv, "impl": v_exec})
+    # (a") compound inner commands: a nested shell whose text has a redirect / a command at every evaluation position is
+    # judged inside the container exactly as the same nested shell is judged locally (Dippy analyses the text of a
+    # nested shell in local mode: stricter than the property needs, and equal to the local verdict)
+    from . import bashgen_ext as bx
+    for e in execs[::3]:
+        for pos, tmpl in bx.EXEC_POSITIONS:
+            for x in ("ls > nogrant", "rm x", "zap"):
+                if "{Xq}" in tmpl or "'" in tmpl:
+                    continue
+                inner = bx.fill(tmpl, x)
+                if "'" in inner:
+                    continue
+                text = f"{e} sh -c '{inner}'"
+                v, local = verdict(text), verdict(f"sh -c '{inner}'")
+                out.case(["remote-position", text])
+                out.count("shape", "compound-inner")
+                if v != local:
+                    out.violations.append({"kind": "inner-differs", "what": f"{text!r} is judged {v} but the nested shell alone {local} (position {pos})",
+                                           "program": text, "config": CFG, "signature_text": text})
+                if out.evaluations % 5 == 0:
+                    correspond(text)
     # (b) only path checks are relaxed
     for e, (pathy, plain) in itertools.product(execs, INNER_PATHY):
         text = f"{e} {pathy}"
